@@ -269,6 +269,29 @@ def run(ctx):
                 ctx.check(ok, "R10.5", f"{fn['file']}:{q['line']}", f"{fn['name']}|unknown-under-not-exhaustive|{q['line'] - fn['line']}", f"{fn['name']}: a template mentioning the Unknown variant is emitted under {conds}; it must be on the !exhaustive branch",
                           instance=f"{fn['name']}: Unknown piece under {conds[0][:40]}", nontrivial=False)
         ctx.floor("R10.5", "Unknown templates guarded by the exhaustive flag", n, 4)
+        # wire names of enum values are the declared strings themselves, never derived from the (case-converted) Rust identifier:
+        # `rename_all` re-derives them from the identifier and is not the inverse of the identifier's conversion in general
+        # (LEVEL_2 -> Level2 -> LEVEL2)
+        nren = 0
+        for fn in tm["functions"]:
+            if "conjure-codegen/src/" not in fn["file"]:
+                continue
+            for q in fn["quotes"]:
+                txt = q["text"].replace(" ", "")
+                if "rename_all" in txt and "serde" in txt:
+                    ctx.violation("R10.5", f"{fn['file']}:{q['line']}", f"{fn['name']}|serde-rename-all", f"{fn['name']}: emits #[serde(rename_all = ..)]: wire names would be re-derived from Rust identifiers instead of being the declared values (declared names that the identifier conversion does not round-trip change on the wire and listed values are classified as unknown)")
+                if fn["file"].endswith("conjure-codegen/src/enums.rs") and "serde(rename=#" in txt:
+                    nren += 1
+                    var = txt.split("serde(rename=#", 1)[1].split(")")[0]
+                    bound = (fn["lets"].get(var) or "").replace(" ", "")
+                    derived = any(x in bound for x in ("type_name(", "field_name(", "_case(", "to_lowercase(", "to_uppercase("))
+                    ctx.check(not derived and not q["conds"], "R10.5", f"{fn['file']}:{q['line']}", f"{fn['name']}|variant-rename-declared-value",
+                              f"{fn['name']}: the serde name of an enum variant is `{var}` = `{bound[:60]}` under {q['conds']}; it must be the declared value itself, unconditionally",
+                              instance=f"{fn['name']}: #[serde(rename = #{var})] with the declared value")
+        if not nren:
+            enum_serde = [q for fn in tm["functions"] if fn["file"].endswith("conjure-codegen/src/enums.rs") for q in fn["quotes"] if "serde::Serialize" in q["text"].replace(" ", "") and "enum#" in q["text"].replace(" ", "")]
+            if enum_serde:
+                ctx.violation("R10.5", "conjure-codegen/src/enums.rs", "enum|variant-rename-missing", "generated enums derive Serialize/Deserialize but no variant carries #[serde(rename = <declared value>)]: the wire name would be the Rust identifier")
     # ---------------- R10.6 the payload of an unknown union variant is carried by Any (shared with C13)
     from . import c13
     ctx.include(c13, {"R13.1", "R13.2"}, "R10.6", "the payload of an unknown variant must re-serialize to an equivalent document")
